@@ -188,6 +188,38 @@ theorem gone_inside_authenticator_leaves_nothing (s : St) (k : Nat)
   refine ⟨_, by simp [step, ha, ho]; rfl, ?_, ?_, ?_, ?_, ?_, ?_⟩ <;>
     rcases hk with hk | hk <;> simp [send, hs, wake, ha, hk, afterEnd, release]
 
+/-- **close while the thread of a departed client is still inside its service's `on_disconnect`** (a hook that blocks:
+`call k .arm`, the client leaves, later `releaseHook k`): the connection is closed - its socket object closed, and still a
+member of `clients`, until that thread's `finally` runs.  `Server.close()` must not be stopped by such a socket: in any
+state of a threaded / one-shot / forking server it returns, the listener is closed, nothing stays tracked, and every
+tracked client that was being served or authenticated is given end-of-stream and its descriptor released; the client
+inside the hook stays as it is (its hook has already been entered exactly once) and is finished by `releaseHook` -/
+theorem close_passes_client_inside_disconnect_hook (s : St) (k : Nat) (hk : s.cfg.kind ≠ .pool)
+    (hcl : s.closedFlag = false) (hp : (s.cli k).phase = .closing) :
+    ∃ s', step s .serverClose = .ok (s', .none) ∧ s'.listening = false ∧ (∀ j, (s'.cli j).tracked = false) ∧
+      (∀ j, (s.cli j).tracked = true →
+        (s.cli j).phase = .idle ∨ (s.cli j).phase = .blocked ∨ (s.cli j).phase = .authing →
+        (s'.cli j).shut = true ∧ (s'.cli j).srvFd = false) ∧
+      (s'.cli k).phase = .closing ∧ (s'.cli k).discHooks = (s.cli k).discHooks ∧
+      ∃ s'', step s' (.releaseHook k) = .ok (s'', .none) ∧ (s''.cli k).phase = .done ∧ (s''.cli k).tracked = false ∧
+        (s''.cli k).child = false := by
+  refine ⟨baseClose s, by simp [step, hk], by simp [baseClose, hcl], ?_, ?_, ?_, ?_, ?_⟩
+  · intro j
+    simp only [baseClose, hcl, Bool.false_eq_true, if_false, St.mapCli, closeEffect]
+    split
+    · rfl
+    · rename_i h; split <;> simpa using h
+  · intro j ht hph
+    simp only [baseClose, hcl, Bool.false_eq_true, if_false, St.mapCli, closeEffect, ht, if_true, shutOne]
+    rcases hph with h | h | h <;> rw [h] <;>
+      simp [endServeD, endServe, release, closeConn] <;> split <;> simp <;> split <;> simp
+  · simp [baseClose, hcl, St.mapCli, closeEffect, shutOne, hp]; split <;> first | rfl | exact hp
+  · simp [baseClose, hcl, St.mapCli, closeEffect, shutOne, hp]; split <;> rfl
+  · have hp' : ((baseClose s).cli k).phase = .closing := by
+      simp [baseClose, hcl, St.mapCli, closeEffect, shutOne, hp]; split <;> first | rfl | exact hp
+    refine ⟨dedRelease (baseClose s) k, by simp [step, hp', hk], ?_, ?_, ?_⟩ <;>
+      (unfold dedRelease afterEnd; split <;> simp [baseClose, hcl])
+
 /-! ### the pool's table is keyed by descriptor NUMBER: a departed client removes only its own entry -/
 
 /-- the obligation: the code's end-of-stream path (`_serve_requests` → `_drop_connection`) removes only the connection it was
@@ -280,6 +312,21 @@ example : ((run (init { kind := .threaded, auth := true, nb := 1 }) (slowSample.
       [some .ok, some .ok, some .none, some .none, some .eof] ∧
     ((run (init { kind := .threaded, auth := true, nb := 1 }) slowSample).cli 2).inst = none ∧
     ((run (init { kind := .threaded, auth := true, nb := 1 }) slowSample).cli 2).tracked = false := by decide
+
+/-- a threaded server: client 1's `on_disconnect` blocks; it leaves (its thread sits in the hook, the closed socket still in
+`clients`), the server is closed with client 2 connected, then the hook returns: client 2 was given end-of-stream by the
+close, both hooks ran once, nothing is tracked -/
+def hookSample : List Op :=
+  [.connect 1 .good, .call 1 .arm, .connect 2 .good, .abruptClose 1, .serverClose, .releaseHook 1]
+example : ((run (init { kind := .threaded, auth := false, nb := 1 }) (hookSample.take 4)).cli 1).phase = .closing ∧
+    ((run (init { kind := .threaded, auth := false, nb := 1 }) (hookSample.take 4)).cli 1).tracked = true ∧
+    ((run (init { kind := .threaded, auth := false, nb := 1 }) (hookSample.take 4)).cli 1).srvFd = false ∧
+    ((run (init { kind := .threaded, auth := false, nb := 1 }) (hookSample.take 5)).cli 2).shut = true ∧
+    ((run (init { kind := .threaded, auth := false, nb := 1 }) (hookSample.take 5)).cli 1).phase = .closing ∧
+    ((run (init { kind := .threaded, auth := false, nb := 1 }) hookSample).cli 1).phase = .done ∧
+    ((run (init { kind := .threaded, auth := false, nb := 1 }) hookSample).cli 1).discHooks = 1 ∧
+    ((run (init { kind := .threaded, auth := false, nb := 1 }) hookSample).cli 2).discHooks = 1 ∧
+    ((run (init { kind := .threaded, auth := false, nb := 1 }) hookSample).cli 1).tracked = false := by decide
 
 /-- one-shot: the second connection waits in the listen queue and is reset when the server closes itself -/
 example : (run (init { kind := .oneshot, auth := false, nb := 1 }) oneShotSample).closedFlag = true ∧
